@@ -272,8 +272,11 @@ impl Prop for C05 {
           Op::Switch(k) => cur = *k as usize % objs.len(),
         }
       }
-      // every live object still answers like the model of its own calls
+      // every live object still answers like the model of its own calls, and still holds its inner source
       for (i, (o, calls)) in objs.iter().enumerate() {
+        if o.original().source() != text {
+          return Err(format!("original() of live object {i} gives {:?}, the inner text is {text:?}", o.original().source()));
+        }
         let want = splice_text(&text, calls);
         let g = o.source().to_string();
         if g != want {
